@@ -24,7 +24,7 @@ import vcommon as vc
 
 warnings.filterwarnings('ignore')
 
-GEN_TARGETS = ('Bivariate',)
+GEN_TARGETS = ('Bivariate', 'VineBuild')
 DRIVER_MAIN = 'Main/Vine.lean'
 DRIVER_TARGETS = ['CopVerif.Driver.Vine']
 ALWAYS_SEARCH = True
@@ -766,7 +766,8 @@ def run(ctx, lean):
     bad.update({'corr:isRegularVine(real fitted vine)': None, 'corr:edge_theta_admissible': None,
                 'corr:tree_count': None, 'corr:fit-terminates': None,
                 'corr:tau_matrix = independent Kendall tau-b': None,
-                'corr:second fit on the same object = fit on a fresh object': None})
+                'corr:second fit on the same object = fit on a fresh object': None,
+                'tv:VineBuild(generated train_vine vs real fitted vine)': None})
     if lean is None:
         for k in bad:
             ctx.ob(k, False, 'tie', 'driver unavailable')
@@ -897,6 +898,17 @@ def run(ctx, lean):
                 diff = compare_trees(model, real[:mm] if len(real) == len(log) else real)
                 if diff:
                     note(f'corr:train({vt})', {'mode': mode, 'd': d, 't': t, 'diff': diff})
+            # translation validation: the same request answered from the GENERATED construction (Gen/VineBuild.lean)
+            greply = lean.ask(' '.join(['vine gtrain', vt, str(d), str(tt), str(mm)] + reqs))
+            gmodel = parse_train(greply)
+            if isinstance(gmodel, tuple):
+                note('tv:VineBuild(generated train_vine vs real fitted vine)',
+                     {'type': vt, 'mode': mode, 'd': d, 't': t, 'generated': greply[:200], 'model': reply[:200]})
+            else:
+                diff = compare_trees(gmodel, real[:mm] if len(real) == len(log) else real)
+                if diff:
+                    note('tv:VineBuild(generated train_vine vs real fitted vine)',
+                         {'type': vt, 'mode': mode, 'd': d, 't': t, 'diff': diff})
             # (iii) checker on the real structure
             r = lean.ask(' '.join(['vine check', vt, str(d), str(t)] + enc_trees(real)))
             if not r.endswith('all=1'):
@@ -1012,7 +1024,7 @@ def _rand_pair(rng):
 def unit_corr(ctx, lean):
     from copulas.multivariate.tree import CenterTree, Edge
     names = ['corr:_identify_eds_ing', 'corr:_check_constraint', 'corr:is_adjacent', 'corr:sort_edge',
-             'corr:_get_constraints']
+             'corr:_get_constraints', 'tv:VineBuild(generated edge functions vs real)']
     if lean is None:
         for nme in names:
             ctx.ob(nme, False, 'tie', 'driver unavailable')
@@ -1035,6 +1047,10 @@ def unit_corr(ctx, lean):
         got = lean.ask('vine ident ' + enc)
         if got != real and bad[names[0]] is None:
             bad[names[0]] = {'first': (L1, R1, D1), 'second': (L2, R2, D2), 'real': real, 'model': got}
+        got = lean.ask('vine gident ' + enc)
+        if got != real and bad[names[5]] is None:
+            bad[names[5]] = {'fn': '_identify_eds_ing', 'first': (L1, R1, D1), 'second': (L2, R2, D2), 'real': real,
+                             'generated': got}
         # check_constraint
         lv = rng.randint(1, 6)
         tr = CenterTree()
@@ -1044,15 +1060,27 @@ def unit_corr(ctx, lean):
         got = lean.ask(f'vine cc {lv} ' + enc)
         if got != real and bad[names[1]] is None:
             bad[names[1]] = {'level': lv, 'e1': (L1, R1, D1), 'e2': (L2, R2, D2), 'real': real, 'model': got}
+        got = lean.ask(f'vine gcc {lv} ' + enc)
+        if got != real and bad[names[5]] is None:
+            bad[names[5]] = {'fn': '_check_constraint', 'level': lv, 'e1': (L1, R1, D1), 'e2': (L2, R2, D2),
+                             'real': real, 'generated': got}
         real = 'ok ' + ('1' if e.is_adjacent(f) else '0')
         got = lean.ask('vine adj ' + enc)
         if got != real and bad[names[2]] is None:
             bad[names[2]] = {'e1': (L1, R1, D1), 'e2': (L2, R2, D2), 'real': real, 'model': got}
+        got = lean.ask('vine gadj ' + enc)
+        if got != real and bad[names[5]] is None:
+            bad[names[5]] = {'fn': 'is_adjacent', 'e1': (L1, R1, D1), 'e2': (L2, R2, D2), 'real': real,
+                             'generated': got}
         s = Edge.sort_edge([e, f])
         real = 'ok 0 1' if s[0] is e else 'ok 1 0'
         got = lean.ask('vine sortedge ' + enc)
         if got != real and bad[names[3]] is None:
             bad[names[3]] = {'e1': (L1, R1, D1), 'e2': (L2, R2, D2), 'real': real, 'model': got}
+        got = lean.ask('vine gsortedge ' + enc)
+        if got != real and bad[names[5]] is None:
+            bad[names[5]] = {'fn': 'sort_edge', 'e1': (L1, R1, D1), 'e2': (L2, R2, D2), 'real': real,
+                             'generated': got}
     for _ in range(20 * ctx.scale):
         ne = rng.randint(1, 6)
         es = []
